@@ -749,8 +749,77 @@ func checkC10(p *core.Program, r *core.Report) {
 			r.Check(fromLoop, "R3", key, p.Pos(ret.Pos()), "forwards the loop's result", "an unrecoverable condition is reported as a Go error instead of ending the session as failed")
 		}
 	}
-	// nil-tested receivers
+	// a node that lost its router or wait: the nil outcome of each nil test of Node.Router() / Router.Wait() in
+	// tryToResume ends the session as failed on every path (it does not carry on and resume the session anyway)
 	nullable := map[string]bool{"flows.Node.Router": true, "flows.Router.Wait": true}
+	{
+		failsIn := func(b *ssa.BasicBlock) bool {
+			for _, in := range b.Instrs {
+				if ci, ok := in.(ssa.CallInstruction); ok {
+					if mc, ok := ci.Common().Value.(*ssa.MakeClosure); ok && always[mc.Fn.(*ssa.Function)] {
+						return true
+					}
+					if g := ci.Common().StaticCallee(); g != nil && always[g] {
+						return true
+					}
+				}
+			}
+			return false
+		}
+		per := map[string]int{}
+		nTests := 0
+		core.EachInstr(e.tryResume, false, func(_ *ssa.Function, in ssa.Instruction) {
+			iff, ok := in.(*ssa.If)
+			if !ok {
+				return
+			}
+			bo, ok := iff.Cond.(*ssa.BinOp)
+			if !ok || (bo.Op != token.EQL && bo.Op != token.NEQ) || !core.IsNilConst(bo.Y) {
+				return
+			}
+			what := ""
+			for w := range core.BackSlice(bo.X, nil) {
+				if c, ok := w.(*ssa.Call); ok && c.Call.IsInvoke() {
+					if o := core.CalleeObj(&c.Call); o != nil && nullable[core.ObjName(o)] {
+						if _, isPhi := bo.X.(*ssa.Phi); isPhi || w == bo.X {
+							what = core.ObjName(o)
+						}
+					}
+				}
+			}
+			if what == "" {
+				return
+			}
+			nTests++
+			nilSucc := iff.Block().Succs[0]
+			if bo.Op == token.NEQ {
+				nilSucc = iff.Block().Succs[1]
+			}
+			escapes := ""
+			seen := map[*ssa.BasicBlock]bool{}
+			var walk func(b *ssa.BasicBlock)
+			walk = func(b *ssa.BasicBlock) {
+				if seen[b] || failsIn(b) {
+					return
+				}
+				seen[b] = true
+				if len(b.Succs) == 0 {
+					if _, isRet := b.Instrs[len(b.Instrs)-1].(*ssa.Return); isRet {
+						escapes = p.Pos(b.Instrs[len(b.Instrs)-1].Pos())
+					}
+				}
+				for _, sc := range b.Succs {
+					walk(sc)
+				}
+			}
+			walk(nilSucc)
+			per[what]++
+			key := fmt.Sprintf("tryToResume/%s()==nil#%d/fails-session", what, per[what])
+			r.Check(escapes == "", "R3", key, p.Pos(bo.Pos()), "every path from the nil outcome calls failSession", "when "+what+"() is nil, tryToResume can reach the return at "+escapes+" without ending the session as failed: a session waiting at a node that has no router or wait any more is resumed (or left) instead of failed")
+		})
+		r.Require("router_wait_nil_tests", nTests, 2)
+	}
+	// nil-tested receivers
 	for _, fn := range []*ssa.Function{e.tryResume, e.visit, e.pick} {
 		per := map[string]int{}
 		for _, cs := range core.Calls(fn, false) {
